@@ -129,7 +129,7 @@ def table() -> dict[str, Any]:
     import mypy.main as M
     from mypy import config_parser as CP
     from mypy import defaults
-    from mypy.options import PER_MODULE_OPTIONS, Options
+    from mypy.options import OPTIONS_AFFECTING_CACHE, PER_MODULE_OPTIONS, Options
 
     out = io.StringIO()
     parser, _names, strict_assign = M.define_options("mypy", M.HEADER, out, out, False)
@@ -207,6 +207,7 @@ def table() -> dict[str, Any]:
         e["toml_typed"] = name in CP.toml_config_types or getattr(template, name, None) is not None
         e["documented"] = name in doc
         e["per_module"] = name in PER_MODULE_OPTIONS
+        e["affects_cache"] = name in OPTIONS_AFFECTING_CACHE
     internal = sorted(k for k in defaults_snap if k not in entries and getattr(template, k, None) is not None)
     return {
         "entries": entries,
@@ -331,6 +332,18 @@ def _cache_for(root_dir: str, eff_flags: list[str], made: dict[str, str], tag: s
     return made[key]
 
 
+def _seeded_cache(root_dir: str, eff_flags: list[str], made: dict[str, str]) -> str:
+    """Private copy of a typeshed-only cache built once per pool (flock) by a run with the same effective global flags."""
+    key = common.fingerprint(sorted(eff_flags), "seeded")
+    if key not in made:
+        made[key] = os.path.join(root_dir, "cache-" + key)
+        try:
+            shutil.copytree(inproc.base_cache(basic._ROOT, eff_flags), made[key])
+        except Exception:
+            os.makedirs(made[key], exist_ok=True)
+    return made[key]
+
+
 def equiv_group(runs: list[dict[str, Any]], files: dict[str, str], build: bool = True) -> dict[str, Any]:
     """All runs of one option group. runs[0] is the baseline (no option set anywhere). Snapshots of later runs are
     returned as differences from the baseline's."""
@@ -415,7 +428,8 @@ def render_config(fmt: str, glob: dict[str, Any], sections: list[tuple[str, dict
     if fmt == "toml":
         lines = ["[tool.mypy]"] + [f"{k} = {_toml_val(v)}" for k, v in glob.items()]
         for pat, st in sections:
-            lines += ["", "[[tool.mypy.overrides]]", f"module = {json.dumps(pat)}"] + [f"{k} = {_toml_val(v)}" for k, v in st.items()]
+            mod = json.dumps(pat) if "," not in pat else "[" + ", ".join(json.dumps(q) for q in pat.split(",")) + "]"
+            lines += ["", "[[tool.mypy.overrides]]", f"module = {mod}"] + [f"{k} = {_toml_val(v)}" for k, v in st.items()]
         return {"pyproject.toml": "\n".join(lines) + "\n"}
     lines = ["[mypy]"] + [f"{k} = {_ini_val(v)}" for k, v in glob.items()]
     for pat, st in sections:
@@ -437,7 +451,8 @@ def _check_contract(c: dict[str, Any], module: str, result: Any, inline: dict[st
     c.setdefault("cells", {})
     for p, _ in secs:
         if model.matches(p, module):
-            cell = "match:" + model.shape(p) + (":zero-width" if model.needs_zero_width(p, module) else "")
+            zw = model.zero_width_stars(p, module)
+            cell = "match:" + model.shape(p) + (f":zero-width-{zw}-star" if zw else "")
             c["cells"][cell] = c["cells"].get(cell, 0) + 1
     c["cells"][f"nmatch={n_match}:{where}"] = c["cells"].get(f"nmatch={n_match}:{where}", 0) + 1
     for opt in JUDGED:
@@ -480,7 +495,10 @@ def classify_prec(c: dict[str, Any], module: str, opt: str, got: Any, acc: list[
     by = acc[0][1]
 
     def shp(j: int) -> str:
-        return model.shape(secs[j][0]) + (":zero-width" if model.needs_zero_width(secs[j][0], module) else "")
+        zw = model.zero_width_stars(secs[j][0], module)
+        if zw:  # one mechanism whatever else the pattern contains
+            return f"unstructured:zero-width-{zw}-star"
+        return model.shape(secs[j][0])
 
     matching = [j for j, (p, st) in enumerate(secs) if opt in st and model.matches(p, module)]
     if by.startswith("section:"):
@@ -500,9 +518,12 @@ def classify_prec(c: dict[str, Any], module: str, opt: str, got: Any, acc: list[
 
 
 def _make_contract(case: dict[str, Any]) -> dict[str, Any]:
-    secs = [(p, section_settings(i)) for i, p in enumerate(case["sections"])]
+    """`sections` entries may be comma-joined patterns ("a.*,*.b"): one section header naming several globs. For the model
+    that is the same as consecutive sections with equal settings."""
+    rendered = [(p, section_settings(i)) for i, p in enumerate(case["sections"])]
+    secs = [(q, st) for p, st in rendered for q in p.split(",")]
     glob, cmd, argv = layers(case["variant"])
-    return {"sections": secs, "glob": glob, "cmd": cmd, "argv": argv, "root": None}
+    return {"sections": secs, "rendered": rendered, "glob": glob, "cmd": cmd, "argv": argv, "root": None}
 
 
 def prec_chunk(cases: list[dict[str, Any]], names: list[str], order_seed: str) -> dict[str, Any]:
@@ -519,7 +540,7 @@ def prec_chunk(cases: list[dict[str, Any]], names: list[str], order_seed: str) -
             c = _make_contract(case)
             d = os.path.join(gdir, f"p{n}")
             os.makedirs(d)
-            cfg = render_config(case["fmt"], c["glob"], c["sections"])
+            cfg = render_config(case["fmt"], c["glob"], c["rendered"])
             common.write_files(d, cfg)
             _obs.clear()
             r = _only_process_options([*c["argv"], "-c", "pass"], d, {})
@@ -617,7 +638,7 @@ def e2e_chunk(cases: list[dict[str, Any]], names: list[str]) -> dict[str, Any]:
                     text = "# mypy: allow-untyped-defs, warn-no-return=True, always-true=SI"
                 src, probes = e2e_source(text)
                 files[mod_path(m, pkgs)] = src + f"# run {os.getpid()}-{basic._n}-{n}\n"
-            files.update(render_config(case["fmt"], c["glob"], c["sections"]))
+            files.update(render_config(case["fmt"], c["glob"], c["rendered"]))
             common.write_files(d, files, mtime=1_500_000_000 + 10 * (basic._n * 1000 + n))
             eff = list(c["argv"])
             if case["variant"] & 1:
@@ -625,7 +646,7 @@ def e2e_chunk(cases: list[dict[str, Any]], names: list[str]) -> dict[str, Any]:
                 eff = ["--always-true", "SG", "--disallow-untyped-defs", "--no-warn-no-return", "--follow-imports=error"]
                 if case["variant"] & 2:
                     eff = ["--always-true", "SG", "--follow-imports=skip", "--warn-no-return", "--allow-untyped-defs"]
-            cache = _cache_for(gdir, eff, made)
+            cache = _seeded_cache(gdir, eff, made)
             _obs.clear()
             _watch = set(names)
             c["names"] = set(names)
@@ -687,7 +708,7 @@ def e2e_chunk(cases: list[dict[str, Any]], names: list[str]) -> dict[str, Any]:
             res["missing_state"] = c.get("missing_state", [])[:5]
             res["n_inline"] = len(inl)
             if res["violations"]:
-                res["config"] = render_config(case["fmt"], c["glob"], c["sections"])
+                res["config"] = render_config(case["fmt"], c["glob"], c["rendered"])
                 res["argv"] = c["argv"]
                 res["out"] = (r.get("out") or "")[-3000:]
             out.append(res)
